@@ -209,6 +209,7 @@ type Runner struct {
 	BeforeStep []func(r *Runner, op *Op)
 	OnClosed   func(r *Runner) *Fail // called between Close and Open of a reopen (C13)
 	OnKilled   func(r *Runner)       // called between the death of the process and the restart of a kill op (C13)
+	bgets      int                   // Batch.Get results seen so far
 	staleBatch *kv.Batch             // a committed batch whose handle the "caller" kept
 	// NoHuge: no value of more than a mebibyte is generated (the crash engine keeps the bytes of every file at every
 	// frozen instant in memory: a 2 MiB record times hundreds of instants would look like an unbounded allocation)
@@ -456,10 +457,13 @@ func firstDiff(a, b []byte) int {
 }
 
 func (r *Runner) retain(got []byte, key []byte) {
+	r.retainAs(got, fmt.Sprintf("Get(%q)", abbrevKeys([]string{string(key)})[0]))
+}
+
+func (r *Runner) retainAs(got []byte, what string) {
 	if r.Poison == nil || len(got) == 0 {
 		return
 	}
-	what := fmt.Sprintf("Get(%q)", abbrevKeys([]string{string(key)})[0])
 	if len(r.Poison.Returned) >= 24 {
 		r.Poison.Returned = r.Poison.Returned[1:]
 	}
@@ -806,7 +810,9 @@ func (r *Runner) checkKeyList(what string, keys [][]byte, ordered bool) *Fail {
 	got := make([]string, len(keys))
 	for i, k := range keys {
 		got[i] = string(k)
-		ScribbleBehind(k) // a caller appending to a key it was handed must not reach the keys that follow
+	}
+	for _, k := range keys {
+		ScribbleKey(k) // a caller overwriting or appending to a key it was handed reaches neither the other keys nor the index
 	}
 	if ordered {
 		if !sort.StringsAreSorted(got) {
@@ -994,6 +1000,35 @@ func (r *Runner) checkFoldSilently() *Fail {
 func (r *Runner) execBatch(op *Op) (touched [][]byte, global bool, fail *Fail) {
 	filesBefore := r.DB.Stat().DataFileNum // before NewBatch: the batch holds the database lock
 	before := r.ActiveOffset()
+	// "an iterator drives a batch" (purge by prefix: for ; it.Valid(); it.Next() { b.Delete(it.Key()) }): an iterator
+	// created before the batch is moved while the batch is open. Valid/Key/Next work on the iterator's snapshot, so
+	// they neither wait for the lock the batch holds nor see what the batch stages.
+	var drv *kv.Iterator
+	var drvKeys []string
+	drvPos := 0
+	if len(op.Ops)%3 == 1 {
+		drvKeys = r.sortedModelKeys()
+		drv = r.DB.NewIterator(kv.IteratorOptions{})
+		defer drv.Close()
+		r.Stats.Label("iterator-created-before-a-batch-moved-while-the-batch-is-open")
+	}
+	moveDrv := func() *Fail {
+		if drv == nil {
+			return nil
+		}
+		v := drv.Valid()
+		if v != (drvPos < len(drvKeys)) {
+			return failf("iter-valid", "an iterator created before NewBatch, moved while the batch is open: Valid() = %v at position %d of %d", v, drvPos, len(drvKeys))
+		}
+		if v {
+			if k := drv.Key(); string(k) != drvKeys[drvPos] {
+				return failf("iter-key", "an iterator created before NewBatch, moved while the batch is open: Key() = %q at position %d, the snapshot holds %q there", k, drvPos, drvKeys[drvPos])
+			}
+			drv.Next()
+			drvPos++
+		}
+		return nil
+	}
 	b := r.DB.NewBatch(kv.BatchOptions{Sync: op.Sync})
 	committed := false
 	if st := r.staleBatch; st != nil {
@@ -1029,6 +1064,9 @@ func (r *Runner) execBatch(op *Op) (touched [][]byte, global bool, fail *Fail) {
 	seenKeys := map[string]int{}
 	for i := range op.Ops {
 		s := &op.Ops[i]
+		if f := moveDrv(); f != nil {
+			return nil, true, f
+		}
 		switch s.K {
 		case "bput":
 			val := OpValue(s.VSeed, s.VLen)
@@ -1089,6 +1127,17 @@ func (r *Runner) execBatch(op *Op) (touched [][]byte, global bool, fail *Fail) {
 				}
 				if !sameBytes(got, want) {
 					return nil, false, failf("batch-get-wrong-value", "Batch.Get(%q) = %s, want %s", s.Key, ValueDigest(got), ValueDigest(want))
+				}
+				// the result belongs to the caller: every other one is kept and must stay what it is (later Batch.Puts of
+				// the key, the Commit, later Puts), the others the caller edits in place - which must not reach what the batch
+				// commits
+				r.bgets++
+				if r.bgets%2 == 0 {
+					r.retainAs(got, fmt.Sprintf("Batch.Get(%q)", abbrevKeys([]string{string(s.Key)})[0]))
+				} else {
+					for i := range got {
+						got[i] ^= 0xFF
+					}
 				}
 			} else if !errors.Is(err, kv.ErrKeyNotFound) {
 				if err == nil {
